@@ -247,10 +247,10 @@ func c06ByteSub() *engine.Sub {
 	}
 	return &engine.Sub{
 		Name: "byte-level-corruption",
-		Rule: "for each sealed artefact ({delegation, invocation} x algorithm x {DAG-CBOR sealed bytes, DAG-JSON text}): the unmodified bytes, every single-bit flip, every single-byte deletion, every truncation length, and (all artefacts in thorough; the Ed25519 artefacts in quick) every byte substitution and every single-byte insertion at every offset, through every decoder (7 CBOR / 3 JSON entry points): error, or a token whose every field equals the original's and which passes an independent signature re-verification; non-trivial = mutations that some decoder accepts or that reach signature verification",
+		Rule: "for each sealed artefact ({delegation, invocation} x algorithm x {DAG-CBOR sealed bytes, DAG-JSON text}): the unmodified bytes, every single-bit flip, every single-byte deletion, every truncation length, and (Ed25519, secp256k1 and P-256 artefacts in thorough; the Ed25519 artefacts in quick) every byte substitution and every single-byte insertion at every offset, through every decoder (7 CBOR / 3 JSON entry points): error, or a token whose every field equals the original's and which passes an independent signature re-verification; non-trivial = mutations that some decoder accepts or that reach signature verification",
 		Bound: func(t string) string {
 			if t == "thorough" {
-				return "6 algorithms x 2 kinds x 2 codecs; bit flips, deletions, truncations, 255 substitutions and 256 insertions at every offset"
+				return "6 algorithms x 2 kinds x 2 codecs; bit flips, deletions, truncations at every offset for all; 255 substitutions and 256 insertions at every offset for Ed25519, secp256k1 and P-256"
 			}
 			return "3 algorithms x 2 kinds x 2 codecs; bit flips, deletions, truncations everywhere; substitutions and insertions on the Ed25519 artefacts"
 		},
@@ -265,7 +265,7 @@ func c06ByteSub() *engine.Sub {
 					return
 				}
 				ops := []string{"bitflip", "delete", "truncate"}
-				if tier == "thorough" || a.Alg == "ed25519" {
+				if a.Alg == "ed25519" || (tier == "thorough" && (a.Alg == "secp256k1" || a.Alg == "p256")) {
 					ops = append(ops, "subst", "insert")
 				}
 				for _, op := range ops {
